@@ -50,6 +50,12 @@ func runC12(t *testing.T, seed uint64, m *Mask) *Report {
 	if fault != "none" {
 		n = 1
 	}
+	// a message size limit with payloads that are small on the wire (gzip first in the pipe, highly compressible)
+	// but larger than the limit once restored: the limit is about what travels, the payload must come back whole
+	smallLimit := fault == "none" && !ws && proto != "http" && proto != "thrift-binary" && r.Chance(0.12)
+	if smallLimit {
+		opt.Limit = uint32(1500 + r.Intn(2500))
+	}
 	filters := []byte{world.FGzip1, world.FGzip5, world.FGzip9, world.FMd5}
 	var ops []*world.Op
 	for i := 0; i < n; i++ {
@@ -138,6 +144,18 @@ func runC12(t *testing.T, seed uint64, m *Mask) *Report {
 				op.Pipe = []byte{world.FGzip5}
 			}
 		}
+		if smallLimit {
+			op.Route, op.Codec = "echo", 'j'
+			if op.Kind == "push" {
+				op.Route = "note"
+			}
+			op.Data = strings.Repeat("ab", int(opt.Limit)/2+r.Intn(int(opt.Limit)))
+			op.Pipe = []byte{[]byte{world.FGzip1, world.FGzip5, world.FGzip9}[r.Intn(3)]}
+			if r.Chance(0.3) {
+				op.Pipe = append(op.Pipe, world.FMd5)
+			}
+			op.AcceptCodec = 0
+		}
 		op.HYield = r.Intn(3)
 		ops = append(ops, op)
 	}
@@ -146,7 +164,7 @@ func runC12(t *testing.T, seed uint64, m *Mask) *Report {
 	if fault != "none" {
 		rep.NFaults = 1
 	}
-	rep.Cell = fmt.Sprintf("%s,fault=%s", proto, fault)
+	rep.Cell = fmt.Sprintf("%s,fault=%s,limit=%d", proto, fault, opt.Limit)
 
 	out := world.Run(t, opt, func(e *world.Env) {
 		e.AllowUnknownArgs = fault != "none"
